@@ -99,6 +99,12 @@ impl PublicationMessageFlyweight {
         unsafe { offset_of!(PublicationMessageDefn, channel_data) as Index + (*self.m_struct).channel_length as Index }
     }
 
+    /// Number of bytes the message takes for a channel of the given length.
+    #[inline]
+    pub fn encoded_length(channel_length: usize) -> usize {
+        offset_of!(PublicationMessageDefn, channel_data) + channel_length
+    }
+
     // Parent Getters
     #[cfg(test)]
     pub fn correlation_id(&self) -> i64 {
